@@ -155,10 +155,10 @@ struct Cfg0 : HBase<eventpp::HeterEventQueue<int, L1> >
 	int protoCount() const override { return 4; }
 	int callableKinds() const override { return 7; }
 	int argKinds() const override { return 7; }
-	int predKinds() const override { return 5; }
+	int predKinds() const override { return 6; }
 	int protoOfCallable(int k) const override { static const int t[] = { 0, 1, 1, 2, 2, 3, 0 }; return t[k]; }
 	int protoOfArgs(int k) const override { static const int t[] = { 0, 1, 1, 2, 2, 3, 1 }; return t[k]; }
-	int protosOfPred(int k) const override { static const int t[] = { 1, 2, 4, 8, 2 | 4 }; return t[k]; }
+	int protosOfPred(int k) const override { static const int t[] = { 1, 2, 4, 8, 2 | 4, 4 }; return t[k]; }
 	void add(int key, int kind, int how, int b, int cb) override {
 		switch(kind) {
 		case 0: addF(key, how, b, Fn<>(cb)); break;
@@ -193,7 +193,8 @@ struct Cfg0 : HBase<eventpp::HeterEventQueue<int, L1> >
 		case 1: return q.processIf(Pr<int>());
 		case 2: return q.processIf(Pr<const std::string &>());
 		case 3: return q.processIf(Pr<const Big &>());
-		default: return q.processIf(PrIntOrString());
+		case 4: return q.processIf(PrIntOrString());
+		default: return q.processIf(Pr<std::string>()); // takes the argument by value: the listeners must still receive it intact
 		}
 	}
 	void forEach(int key, int proto, std::vector<int> & out) override {
@@ -624,7 +625,8 @@ struct Interp
 					knownTriggered = true;
 				}
 				if(consumed > 0 && ! slotProtos.empty() && ! slotProtos.count(e.proto)) recycledAcross = true;
-				impl->enqueue(key, ak, e.serial, value, e.args);
+				if(plan) { struct Un { Un() { --faults().paused; } ~Un() { ++faults().paused; } } un; impl->enqueue(key, ak, e.serial, value, e.args); }
+				else impl->enqueue(key, ak, e.serial, value, e.args);
 				pending.push_back(e);
 				log << "(#" << e.serial << " p" << e.proto << ")";
 			}
@@ -746,6 +748,27 @@ struct Interp
 		}
 	}
 
+	// C09: a failed enqueue leaves the queue exactly as it was (the model simply does not record the event); what the ledger
+	// sees - a payload destroyed that was never constructed, or destroyed twice - is checked after every operation
+	void execEnqueueWithFaults(const Op & op, int index) {
+		int caught = 0;
+		{
+			FaultArm arm(plan, index);
+			try { execOp(op); }
+			catch(const Injected &) { caught = 1; }
+			catch(const std::bad_alloc &) { caught = 2; }
+			catch(...) { fail("fault.foreign", "C09", "an exception of a different type than the injected one reached the caller"); }
+		}
+		if(! caught) return;
+		++plan->fired;
+		plan->firedKind = faults().lastKind;
+		auto it = plan->at.find(index);
+		if(it != plan->at.end() && it->second > 1 && ! pending.empty()) plan->firedAtKGreater1OnNonEmpty = true;
+		log << "[fault]";
+		if(! failed && ledger().isFlagged()) fail("ledger.flag", "C08,C09", ledger().message());
+		if(! failed && impl->emptyQ() != pending.empty()) fail("fault.enqueue.state", "C09", "after a failed enqueue emptyQueue() disagrees with the model");
+	}
+
 	// direct dispatch: the frame learns its single event when the first listener is called
 	void onCallDirectFix() {
 		if(! frames.empty() && frames.back().direct && frames.back().batch.empty() && pendingDirect) {
@@ -760,7 +783,9 @@ struct Interp
 		int index = 0;
 		for(const Op & op : prog.ops) {
 			if(failed) break;
-			if(plan && op.kind == H_COPY) execCopyWithFaults(op, index); else execOp(op);
+			if(plan && op.kind == H_COPY) execCopyWithFaults(op, index);
+			else if(plan && op.kind == H_ENQ) execEnqueueWithFaults(op, index);
+			else execOp(op);
 			++index;
 		}
 		if(! failed) {
